@@ -1,7 +1,7 @@
 import random, sys, json
 from fractions import Fraction
 rnd = random.Random(int(sys.argv[1])); N = int(sys.argv[2])
-KEYS = ['5"','5','"wide"','wide','"','x"','"x','x','a','b','ab','a b',"a'b",'a"b','','0','1','10','é','☺',"'a'",'a/b','a~b','~0','~1','/','\\','x\ty',' a','a ','-1','01']
+KEYS = ['[?', 'why[?]', '[?@.x]', 'a..b', '[*]', 'a,b', 'a:b', '$', '@', 'a]', '[', ']', '*', '..', 'a.b', '(a)', '!a', 'a&&b', 'a==b', '#', '?'] + ['5"','5','"wide"','wide','"','x"','"x','x','a','b','ab','a b',"a'b",'a"b','','0','1','10','é','☺',"'a'",'a/b','a~b','~0','~1','/','\\','x\ty',' a','a ','-1','01']
 SCAL = [None, True, False, 0, 1, -1, 1.5, '', 'a', 'NEW']
 def doc(depth=0):
     r = rnd.random()
